@@ -15,6 +15,8 @@ Everything is deterministic and built FRESH from a small descriptor by `build_co
           finish SUCCEEDS after a complete evaluation (it writes one line 'C03-FINISH<...>' to the coba logger, which is how
           the call is observed, also from worker processes) and RAISES Fault03('C03-FINISH-BROKEN<...>') when the object
           was never successfully asked to predict or one of its own predict / learn calls raised.
+          Both learner classes take ONE interaction at a time (a batched call is rejected with TypeError before anything
+          is touched), so on a batched environment coba's SafeLearner has to fall back to row-by-row calls.
   Seq03   coba's real SequentialCB (subclassed only to carry a tag / the fault hooks).
   Scr03   a scripted generator evaluator: predicts on every interaction, teaches the learner on the even ones.
 
@@ -30,9 +32,14 @@ triple `on` and raises Fault03(fault_text(f)):
 """
 from coba.context import CobaContext
 from coba.evaluators import SequentialCB
-from coba.primitives import Learner, Evaluator, Environment, SimulatedInteraction
+from coba.primitives import Learner, Evaluator, Environment, SimulatedInteraction, is_batch
 
 N_ITEMS = {0: 3, 1: 2}
+N_LONG = 32          # length of E0 in the 'long' variant (more than one 25-interaction slice of coba's Cache filter)
+
+
+def n_items(e, long=False):
+    return N_LONG if (long and e == 0) else N_ITEMS[e]
 ACTIONS = {0: ['a', 'b', 'c'], 1: ['x', 'y']}
 FAULT_KINDS = ('env.params', 'env.read', 'lrn.params', 'predict', 'learn', 'val.params', 'evaluate', 'lrn.finish')
 
@@ -61,8 +68,9 @@ def rewards_of(e, i):
 
 
 class Env03(Environment):
-    def __init__(self, e, faults=()):
+    def __init__(self, e, faults=(), n=None):
         self.e = e
+        self.n = N_ITEMS[e] if n is None else n
         self._params_fault = [fault_text(f) for f in faults if f['at'] == 'env.params' and f['on'][0] == e]
         self._read_faults = {f['k']: fault_text(f) for f in faults if f['at'] == 'env.read' and f['on'][0] == e}
 
@@ -72,7 +80,7 @@ class Env03(Environment):
         return {'tag': f'E{self.e}'}
 
     def read(self):
-        for i in range(N_ITEMS[self.e]):
+        for i in range(self.n):
             if i in self._read_faults: raise Fault03(self._read_faults[i])
             yield SimulatedInteraction((self.e, i), list(ACTIONS[self.e]), rewards_of(self.e, i), env=f'E{self.e}')
 
@@ -97,6 +105,10 @@ class Lrn03(Learner):
         return not self.hist and not self.calls and not self.finished
 
     def _call(self, kind, context):
+        # like most user-written learners it takes ONE interaction at a time: a batch is rejected before anything is
+        # touched (coba's SafeLearner then falls back to row-by-row calls)
+        if is_batch(context) or not (isinstance(context, (tuple, list)) and len(context) == 2 and isinstance(context[0], int)):
+            raise TypeError('Lrn03 takes one interaction at a time')
         e = context[0]
         k = self.calls.get((kind, e), 0)
         self.calls[(kind, e)] = k + 1
@@ -112,8 +124,9 @@ class Lrn03(Learner):
         return actions[(n + s + self.l) % len(actions)], (1 + n) / 16
 
     def learn(self, context, action, reward, probability, **kwargs):
+        if is_batch(context): raise TypeError('Lrn03 takes one interaction at a time')
         info = CobaContext.learning_info
-        info['lrn'] = f'L{self.l}'
+        info['lrn'] = self.l                # an int on purpose: coba's Unbatch indexes into strings
         info['n_taught'] = len(self.hist)
         info[f'L{self.l}_calls'] = self.calls.get(('learn', context[0]), 0)      # a key only this learner writes (stale entries stay visible)
         info['sum_taught'] = sum(int(r) for _, _, r in self.hist)
@@ -194,35 +207,55 @@ class Scr03(Evaluator, _ValFaults):
     def evaluate(self, environment, learner):
         msg = self._eval_faults.get((env_index(environment), learner.l))
         if msg: raise Fault03(msg)
-        for i, inter in enumerate(environment.read()):
+        for i, inter in enumerate(_single_rows(environment.read())):
             a, p = learner.predict(inter['context'], inter['actions'])
             r = inter['rewards'][inter['actions'].index(a)]
             if i % 2 == 0: learner.learn(inter['context'], a, r, p)
-            yield {'val': f'V{self.v}', 'env': inter['env'], 'lrn': f'L{learner.l}', 'i': i, 'action': a, 'reward': r,
+            yield {'val': f'V{self.v}', 'env': inter['env'], 'lrn': learner.l, 'i': i, 'action': a, 'reward': r,
                    'probability': p, 'n_taught': len(learner.hist)}
 
 
-def n_calls(kind, e, v):
+def _single_rows(interactions):
+    """The scripted evaluator works interaction by interaction: batched interactions are taken apart."""
+    for inter in interactions:
+        if is_batch(inter.get('context')) or is_batch(inter.get('actions')):
+            size = len(inter['actions'])
+            for j in range(size):
+                yield {k: (v[j] if is_batch(v) else v) for k, v in inter.items()}
+        else:
+            yield inter
+
+
+def n_calls(kind, e, v, long=False):
     """How many predict / learn calls evaluator v makes on an (unfaulted) evaluation of environment e."""
-    n = N_ITEMS[e]
+    n = n_items(e, long)
     if kind == 'predict' or v == 0: return n
     return (n + 1) // 2
 
 
-def build_components(faults=(), chunk=None, fin=False):
+def build_components(faults=(), chunk=None, fin=False, long=False, batch=()):
     """Fresh (envs, learners, evaluators) with the faults armed.
-    chunk: None (bare environments) | 'per-env' (each environment piped into its own Chunk filter, like
-    Environments.chunk(cache=False)) | 'shared' (both environments piped into ONE Chunk object, so that every task
-    that has an environment lands in the same chunk of ChunkTasks / the same ProcessTasks.filter call).
-    fin: the learners are Lrn03F (with a finish() hook) instead of Lrn03."""
-    from coba.pipes import Pipes
-    from coba.environments import Chunk
+    chunk: how the environments are wrapped -
+      None           bare Env03 objects
+      'per-env'      each piped into its own Chunk filter, like Environments.chunk(cache=False)
+      'shared'       both piped into ONE Chunk object, so that every task that has an environment lands in the same chunk of
+                     ChunkTasks / the same ProcessTasks.filter call
+      'cache'        each piped into coba's Cache(25) filter, like Environments.cache()
+      'chunk+cache'  each piped into Chunk and then Cache(25), like Environments.chunk()
+    fin:   the learners are Lrn03F (with a finish() hook) instead of Lrn03.
+    long:  E0 has N_LONG interactions instead of 3.
+    batch: indices of the environments that are additionally piped into Batch(2), like Environments.batch(2)."""
+    from coba.pipes import Pipes, Cache
+    from coba.environments import Chunk, Batch
     faults = list(faults)
-    envs = [Env03(0, faults), Env03(1, faults)]
+    envs = [Env03(0, faults, n_items(0, long)), Env03(1, faults, n_items(1, long))]
     if chunk == 'per-env': envs = [Pipes.join(e, Chunk()) for e in envs]
     elif chunk == 'shared':
         c = Chunk()
         envs = [Pipes.join(e, c) for e in envs]
+    elif chunk == 'cache': envs = [Pipes.join(e, Cache(25)) for e in envs]
+    elif chunk == 'chunk+cache': envs = [Pipes.join(Pipes.join(e, Chunk()), Cache(25)) for e in envs]
     elif chunk is not None: raise ValueError(chunk)
+    envs = [Pipes.join(e, Batch(2)) if i in tuple(batch) else e for i, e in enumerate(envs)]
     lrn = Lrn03F if fin else Lrn03
     return (envs, [lrn(0, faults), lrn(1, faults)], [Seq03(0, faults), Scr03(1, faults)])
